@@ -36,7 +36,6 @@ CHECKS = {
    note="Trusted: Python list semantics as reference; the alphabet (an item object is never inserted twice; +=, slicing, sort are outside the property). Beyond the depth bound nothing is claimed.", ref="5/C16"),
 }
 
- # (appended below)
 CHECKS["C18"] = dict(cat="exploration", tech="exhaustive enumeration of every single edit (add/delete/rename service; six attribute edits of every parameter of every request/response) of every base database, applied to the ODX XML; metamorphic classification of the comparison tool's report against an independent XML-level reference",
    text="Every (database x edit kind x target) combination over somersault and three generated databases is materialised as real ODX files, loaded twice through the real loader and compared in both roles with compare_databases / compare_diagnostic_layers; the report must contain exactly that kind of change for exactly that service, self-comparison must be empty, and print_dl_metrics must show the independently counted numbers of services, DOPs and communication parameters.",
    note="Trusted: odxmodel/refcompare.py (XML-level reference of inheritance, prefixes, counts) and the edit alphabet. Combined edits are outside the bound (single edits only).", ref="5/C18")
@@ -76,11 +75,7 @@ def main():
         ],
         "checks": checks,
         "notes": "All checks: ./run <id> quick|thorough; exit 0 held, 1 VIOLATION line(s), 2 harness error. KNOWN_FINDINGS.txt lists recorded and fixed defects; corpus/<id>/ holds their replay cases.",
-        "not_applicable": [{"property_id": p, "reason":  # (appended below)
-CHECKS["C18"] = dict(cat="exploration", tech="exhaustive enumeration of every single edit (add/delete/rename service; six attribute edits of every parameter of every request/response) of every base database, applied to the ODX XML; metamorphic classification of the comparison tool's report against an independent XML-level reference",
-   text="Every (database x edit kind x target) combination over somersault and three generated databases is materialised as real ODX files, loaded twice through the real loader and compared in both roles with compare_databases / compare_diagnostic_layers; the report must contain exactly that kind of change for exactly that service, self-comparison must be empty, and print_dl_metrics must show the independently counted numbers of services, DOPs and communication parameters.",
-   note="Trusted: odxmodel/refcompare.py (XML-level reference of inheritance, prefixes, counts) and the edit alphabet. Combined edits are outside the bound (single edits only).", ref="5/C18")
-NOT_BUILT_REASON} for p in ALL if p not in CHECKS],
+        "not_applicable": [{"property_id": p, "reason": NOT_BUILT_REASON} for p in ALL if p not in CHECKS],
     }
     json.dump(m, open(os.path.join(V, "MANIFEST.json"), "w"), indent=1)
     r = subprocess.run(["python3-vt", "-W", "ignore", "-c", "import json,jsonschema,sys; jsonschema.Draft202012Validator(json.load(open('/root/.vp/MANIFEST.schema.json'))).validate(json.load(open(sys.argv[1]))); print('MANIFEST valid')", os.path.join(V, "MANIFEST.json")])
